@@ -72,7 +72,10 @@ def build_abbrev_forest(rng):
     d = unit(3, 3)
     e = unit(4, 4, share=a)
     g = unit(5, 5, share=b)
-    return Forest([a, b, c, d, e, g])
+    f = Forest([a, b, c, d, e, g])
+    # where the three tables lie in .debug_abbrev is independent of the order in which units use them
+    f.abbrev_order = rng.choice([[0, 1, 2], [2, 1, 0], [1, 0, 2], [1, 2, 0], [2, 0, 1], [0, 2, 1]])
+    return f
 
 
 def run(ctx):
@@ -172,7 +175,7 @@ def run(ctx):
     common.report_broken_obligations(ctx, oblig, bool(ctx.violations))
     ctx.cov.update({
         "evaluations": evaluations, "distinct_nontrivial": nops + nabb,
-        "rule": "4 generated units (DWARF 2-5) with %d stored operations: every operand class (none, addr, 1/2/4/8-byte unsigned and signed, ULEB, SLEB, register+offset, bregx, bit_piece) at boundary operands, as exprloc / block1 and as .debug_loc lists with 1-3 ranges: range, length, offset, opcode, operands (vs the model's decoding), elem/relem numbering, ?OP_x per opcode; abbreviations of every DIE and the table list on %d generated inputs with tables shared A,B,A,-,A,B and DW_FORM_indirect; %d law evaluations on the sample binaries" % (nops, 3 if quick else 25, nlaw),
+        "rule": "4 generated units (DWARF 2-5) with %d stored operations: every operand class (none, addr, 1/2/4/8-byte unsigned and signed, ULEB, SLEB, register+offset, bregx, bit_piece) at boundary operands, as exprloc / block1 and as .debug_loc lists with 1-3 ranges: range, length, offset, opcode, operands (vs the model's decoding), elem/relem numbering, ?OP_x per opcode; abbreviations of every DIE and the table list on %d generated inputs with tables shared A,B,A,-,A,B, placed in .debug_abbrev in any order, and DW_FORM_indirect; %d law evaluations on the sample binaries" % (nops, 3 if quick else 25, nlaw),
         "samples": [], "traces_validated_against_impl": nops + nabb + nlaw, "violations_found": nviol[0],
     })
     return ctx.finish(oblig)
